@@ -87,5 +87,47 @@ CHECKS.update({
   text="(a) 14 shipped event-parser configurations (tm, js, json, test; recovering and not): on every byte string <=4 (5 thorough) and 1-/2-edit seed mutations every reported node lies in [0,len], no two nodes partially overlap and no earlier-reported node strictly contains a later one. (b) every event stream satisfying (a) with <=5 nodes over offsets 0..3 (<=6 over 0..4 thorough), incl. empty and equal ranges, is fed to the unexported builder of parsers/tm/ast through an overlay-added in-package test driver and the resulting tree (parents, sibling order, Next/Child links, node multiset) compared with the reference tree (parent = first later-reported container). (c) tm/ast.Parse and js/ast.Parse compared end to end with the reference tree of their own event streams.",
   note="The in-package driver is ADDED via go test -overlay (no repo file replaced). states = distinct builder stack configurations, transitions = events fed.",
   design="§5.C20"),
+ "C02": dict(
+  category="exploration",
+  technique="bounded exhaustive enumeration of annotated extended-notation grammars x all sentences x all blank patterns through generated parsers vs a denotational reference",
+  text="Annotated grammars are enumerated from a shape language (weight<=6: rule-level, nested, optional, choice, list, separated-list, empty-range and default arrows over <=2 nonterminals and terminals a,b,c; 49 arrow-shape classes visited round-robin, simplest first), generated with the real compiler and templates, built, and run on every sentence <=4 tokens in all 2^(n+1) blank patterns, with fixWhitespace on and off; the listener's event sequence (type, offset, endoffset) must equal the post-order (reduce-order) list of annotated parts of the unique derivation computed by an independent evaluator with the documented range rule. The plain-CFG fragment (gramenum, every rule annotated) is cross-checked against a second tree enumerator.",
+  note="Build cost bounds the number of generated grammars per run (budgeted prefix of the enumeration, reported as exhaustive:false). Without fixWhitespace a part ending in an empty symbol extends to the next token: the statement is silent, implementation followed and counted.",
+  design="§5.C02"),
+ "C10": dict(
+  category="exploration",
+  technique="exhaustive enumeration of all pattern strings <=5/6 over a meta alphabet plus escape skeletons x fold x byte mode; independent reference parser and exact membership comparison",
+  text="Every string of length <=5 (6 thorough) over a 19-character meta alphabet and ~80k escape-skeleton patterns (\\xHH, \\uHHHH, \\UHHHHHHHH, \\x{..}, octal, \\p{..}, negated/subtracted classes, (?i), {m,n}, with hex digits from {0,9,a,F,G,z}) in all four fold x byte modes: accept/reject must agree with an independent recursive-descent parser of the documented syntax, error offsets lie within the pattern, and for accepted patterns the language (all words <=3 over an exact probe alphabet cut at every range boundary of either side, plus power words) must equal the reference denotation. For every name in unicode.Categories/Scripts/Properties and the Perl classes: the class alone, negated and subtracted, with and without fold, compared at every range boundary (every code point in thorough).",
+  note="Corners documented nowhere (dash in the middle of a bracket class, undocumented (?...) spellings, case folding of a standalone class escape) are counted as unspecified and only checked for crashes.",
+  design="§5.C10"),
+ "C18": dict(
+  category="model_checking",
+  technique="exhaustive single-deviation exploration of Go map iteration order through a GOROOT overlay seam, plus all generation histories <=2/3 across processes and GOMAXPROCS",
+  text="The C18 binary is built with an overlay of internal/runtime/maps (iteration offsets and hash seed taken from a seam): run 0 uses offset 0 everywhere; then for every k-th map iteration performed while compiling+generating a grammar and every other start offset (all 7 for single-group maps = every order the runtime can produce; rotations for table-backed maps) one generation in which only that iteration deviates must give byte-identical output. 15 grammars (5 shipped + 10 feature grammars). All histories of <=2 (3 thorough) generations in one process, fresh processes, GOMAXPROCS 1/2/16, and equality with the committed generated files of the shipped grammars.",
+  note="Maps with >8 entries are explored per pinned hash seed only (other seeds sampled by free-running runs); simultaneous deviations only as pairs for two small grammars in thorough. If the overlay cannot be built the check falls back to 32 repetitions reported as sampling.",
+  design="§5.C18"),
+ "C21": dict(
+  category="exploration",
+  technique="bounded exhaustive enumeration of typed-AST grammars x all accepted inputs <=4; reflection walk calling every accessor of every node",
+  text="4752 annotated grammars in 8 shapes (fields f=/f+=, optional, lists with/without separators, nested choices, categories via %interface, injected tokens, nullable arrows, inline arrows) x 8 option variants, generated with eventBased+eventFields+eventAST, built, and for every accepted input <=4 tokens the tree is walked: every To<Name> conversion and every exported zero-argument accessor is called (panics recovered); required accessors must return a valid node / non-empty list, returned nodes lie within the declared selector (categories expanded) and are children of the receiver, every non-injected child is returned by some accessor.",
+  note="Build cost bounds the number of grammars per run (18 seed grammars, one per mechanism, always run first; budgeted prefix reported). Declarations come from the same compile, so over-approximated declarations are not detected.",
+  design="§5.C21"),
+ "C22": dict(
+  category="fault_enumeration",
+  technique="deviation-bounded exhaustive mutation of 35 seed grammars (all 1-token edits; all 2-edit pairs thorough) in crash-containing worker processes",
+  text="35 seed grammars (shipped grammars, compiler testdata, 10 feature grammars): the seeds, every byte string <=3 over 18 bytes in 5 contexts, every 1-token delete/duplicate/swap/replace-by-each-of-40-tm-tokens (token boundaries from the real tm lexer), and in thorough all 2-deviation pairs for seeds under 60 tokens, are compiled with compiler.Compile in 16 worker subprocesses: no panic, no log.Fatal/os.Exit, no hang, and every status error has 0<=Offset<=EndOffset<=len and Line/Column equal to the position of Offset.",
+  note="log.Fatal is intercepted through the log writer to name the calling function; real process deaths are attributed by the shard protocol and re-run alone before being reported.",
+  design="§5.C22"),
+ "C23": dict(
+  category="model_checking",
+  technique="stateless exploration of goroutine schedules (deviation-bounded DFS over a controlled scheduler on testing/synctest) of the real language server over all message histories, plus a free-running -race pass",
+  text="The real startLS runs over an in-memory transport inside a synctest bubble; sender, receiver (slow client) and every handler goroutine park at hooked points (6 in ls/server.go). All histories of depth 1-2 over two documents and depth 3 over one (open/change/empty change/close/definition x 6 contents x 6 positions) x all schedules with <=2 (<=1 at depth 3) deviations from the default: server never dies, exactly one publishDiagnostics per open/change with that version in request order, diagnostics equal a direct compile converted by an independent UTF-16 routine and lie inside the document, definition answers computed from the latest content, one observation sequence per history across schedules; failing schedules are replayed twice. The same histories run free under -race.",
+  note="Interleavings are controlled at the hook points and transport steps only; jsonrpc2's write mutex is modelled by the scheduler (sync.Mutex is not durably blocking for synctest). $/cancelRequest and client disconnects are not in the alphabet.",
+  design="§5.C23"),
+ "C28": dict(
+  category="exploration",
+  technique="exhaustive enumeration of all symbol spellings <=3 (unquoted) / <=2 (quoted) and all pairs through ident.Produce and compiler.Compile",
+  text="Every unquoted name <=3 over {a,B,_,-,1} admitted by the tm ID rule and every quoted name with content <=2 over {a,B,_,-,1,+,\\,',\",e-acute} (241 spellings, 316 declarations) through ident.Produce in all 4 styles, declared alone as terminal and as nonterminal, and all unordered pairs declared together: a successful compile implies every Syms[i].ID matches ^[A-Za-z_][A-Za-z0-9_]*$ and no two symbols share an ID (otherwise an error must have been reported).",
+  note="ident.Produce itself still returns the empty string for names without alphanumerics (two known findings); the compiler now rejects such symbols.",
+  design="§5.C28"),
 })
 NOT_APPLICABLE_REASON = {}
